@@ -484,13 +484,12 @@ class BundleRef:
         self._initialized = True
 
     def __eq__(self, other) -> bool:
-        """Port-reference equality requires *identity* between parents
-        (and of course equality of attribute-name)."""
-        return self.inst is other.inst and self.attrname == other.attrname
+        """Bundle-reference equality is identity.
+        Each parent hands out a single `BundleRef` per attribute-name."""
+        return other is self
 
     def __hash__(self):
-        """Hash references as the tuple of their instance-address and name"""
-        return hash((id(self.inst), self.attrname))
+        return hash(id(self))
 
     def path(self) -> List[str]:
         """Get the path to this potentially nested reference."""
